@@ -263,6 +263,15 @@ func (s *Service) trafficInit() error {
 		return err
 	}
 
+	// a peer may be known only by a persisted cheque (e.g. one adopted in the
+	// handshake): its totals have to be restored as well.
+	for k := range lastCheques {
+		allRetrieveTransfer[k] = struct{}{}
+	}
+	for k := range lastTransCheques {
+		allRetrieveTransfer[k] = struct{}{}
+	}
+
 	addressList, err := s.getAllAddress(allRetrieveTransfer)
 	if err != nil {
 		return fmt.Errorf("traffic: Failed to get chain node information:%v ", err)
